@@ -437,6 +437,35 @@ class CFG:
                     work.append(v)
         return set(state[target] or ())
 
+    def must_hold(self, target: int, edge_establishes, node_transfer) -> bool:
+        """Must-analysis of one boolean property P along all paths from entry to the START of `target`.
+        edge_establishes(facts) -> bool : the decomposed branch facts [(text, polarity, paths)] of a taken edge make P true;
+        node_transfer(node) -> True (node makes P true) | False (node destroys P) | None (node leaves P alone).
+        P is false at entry."""
+        live = self.live_nodes()
+        state: dict[int, Optional[bool]] = {n.id: None for n in self.nodes}
+        state[self.entry] = False
+        work = deque([self.entry])
+        while work:
+            u = work.popleft()
+            cur = state[u]
+            if cur is None:
+                continue
+            t = node_transfer(self.nodes[u]) if self.nodes[u].ast is not None else None
+            out = cur if t is None else t
+            for v, cond in self.succ[u]:
+                if v not in live:
+                    continue
+                val = out
+                if cond is not None and not isinstance(cond[0], str) and edge_establishes(_decompose(cond)):
+                    val = True
+                old = state[v]
+                new = val if old is None else (old and val)
+                if new != old:
+                    state[v] = new
+                    work.append(v)
+        return bool(state[target])
+
     @staticmethod
     def _kill(node: Node, facts: frozenset) -> frozenset:
         if node.ast is None or not facts:
